@@ -25,7 +25,9 @@ var c17Hooks = []string{"Init", "ParseDidStart", "ParseFinish", "ValidationDidSt
 
 type ExtSpec struct {
 	Name      string            `json:"name"`
-	Policy    map[string]string `json:"policy,omitempty"` // hook → "" (ok) | panic_err | panic_str | panic_int | panic_struct
+	// Policy: hook → "" (ok) | panic_err | panic_str | panic_int | panic_struct, optionally "@<path>":
+	// the resolve hooks then panic only for the field at that response path
+	Policy    map[string]string `json:"policy,omitempty"`
 	HasResult bool              `json:"hasResult"`
 }
 
@@ -59,9 +61,25 @@ type probeExt struct {
 
 type weird struct{ A, B int }
 
+// panicKind is the kind of panic the policy prescribes for this call of the hook ("" = none).
+func (x *ExtSpec) panicKind(hook, detail string) string {
+	pol := x.Policy[hook]
+	if i := strings.Index(pol, "@"); i >= 0 {
+		path := detail
+		if j := strings.Index(path, " "); j >= 0 {
+			path = path[:j]
+		}
+		if path != pol[i+1:] {
+			return ""
+		}
+		return pol[:i]
+	}
+	return pol
+}
+
 func (e *probeExt) hook(name, detail string) {
 	e.log.add(e.spec.Name, name, detail)
-	switch e.spec.Policy[name] {
+	switch e.spec.panicKind(name, detail) {
 	case "panic_err":
 		panic(errors.New("boom-" + e.spec.Name + "-" + name))
 	case "panic_str":
@@ -159,7 +177,7 @@ func c17Oracle(c *ExtCase) string {
 	panicked := map[string]bool{}
 	for _, e := range log.events {
 		for i := range c.Exts {
-			if c.Exts[i].Name == e.Ext && c.Exts[i].Policy[e.Hook] != "" {
+			if c.Exts[i].Name == e.Ext && c.Exts[i].panicKind(e.Hook, e.Detail) != "" {
 				panicked[e.Ext+"."+e.Hook] = true
 			}
 		}
@@ -224,7 +242,7 @@ func checkExtTrace(x *ExtSpec, evs []extEvent, class string, anyPanic bool) stri
 			}
 			execOpen = false
 		case "ResolveFieldDidStart":
-			if ok("ResolveFieldDidStart") {
+			if x.panicKind("ResolveFieldDidStart", e.Detail) == "" { // the start hook returned
 				openResolve = append(openResolve, e.Detail)
 			}
 		case "ResolveFieldFinish":
@@ -251,7 +269,7 @@ func checkExtTrace(x *ExtSpec, evs []extEvent, class string, anyPanic bool) stri
 			return fmt.Sprintf("%s started %d time(s) (start hook %s) but %s was called %d time(s)", p[0], count[p[0]], map[bool]string{true: "returned", false: "panicked"}[ok(p[0])], p[1], count[p[1]])
 		}
 	}
-	if ok("ResolveFieldDidStart") && len(openResolve) > 0 {
+	if len(openResolve) > 0 {
 		return fmt.Sprintf("resolution of %v was started and never finished", openResolve)
 	}
 	// outcomes (when a hook panicked the request is cut short and later phases end with the
@@ -302,6 +320,10 @@ func TestC17(t *testing.T) {
 					h := c17Hooks[gen.Uniform(rt, len(c17Hooks), "hook")]
 					kind := []string{"panic_err", "panic_str", "panic_int", "panic_struct"}[gen.Uniform(rt, 4, "panicKind")]
 					x.Policy[h] = kind
+					if (h == "ResolveFieldDidStart" || h == "ResolveFieldFinish") && gen.Chance(rt, 60, "atPath") {
+						// only for one field of the request (the others start and finish normally)
+						x.Policy[h] = kind + "@" + []string{"a", "nn", "o", "o/nn", "f", "b", "l", "l/0/nn", "int", "e", "o/x", "self/self"}[gen.Uniform(rt, 12, "panicPath")]
+					}
 					nPanics++
 					if kind != "panic_err" {
 						nonError = true
